@@ -153,6 +153,10 @@ impl<'a> Env<'a> {
 				if let Some(n) = b.fullname() {
 					if !matches!(**b, RSchema::Ref(_)) {
 						self.defs.insert(n, s);
+						// a logical annotation over a record: its fields may define named types too
+						if let RSchema::Record { fields, .. } = &**b {
+							fields.iter().for_each(|(_, f)| self.collect(f));
+						}
 						return;
 					}
 				}
